@@ -1,6 +1,7 @@
 import CobaVerif.Driver.JsonUtil
 import CobaVerif.Model.C02
 import CobaVerif.Generated.C02GzPredicates
+import CobaVerif.Generated.C02ScanConsts
 open Lean Coba.J
 
 namespace Coba.C02.Driver
@@ -104,6 +105,38 @@ def handle (req : Json) : Except String Json := do
   let ms ← (← natList (fieldD req "mlog" (Json.arr #[]))).mapM (fun i =>
     match mtbl[i]? with | some m => pure m | none => throw s!"member index {i} out of range")
   let scan := tableScan mtbl
+  -- phase 4: the scan as written (chunked), for the extracted read size and the extra sizes the harness asks for
+  let zs := tableZ mtbl
+  let extraSizes ← natList (fieldD req "chunk_sizes" (Json.arr #[]))
+  let chunkCap ← nat (fieldD req "chunk_cap" (ofNat 0))
+  -- phase 4: the shape test; `exp_shape` = (n_learners, n_environments) of the real experiment line (-1 = key missing)
+  let optN (j : Json) : Except String (Option Nat) := do let i ← int j; pure (if i < 0 then none else some i.toNat)
+  let expShape ← match (← arr (fieldD req "exp_shape" (Json.arr #[ofInt (-1), ofInt (-1)]))) with
+    | [a, b] => do pure ((← optN a), (← optN b))
+    | _ => throw "exp_shape: 2 fields expected"
+  let shapeOf : Rec → Option Nat × Option Nat := fun r => if r == exp then expShape else (none, none)
+  let given := givenShape triples
+  let altGiven ← match (← natList (fieldD req "alt_given" (Json.arr #[ofNat given.1, ofNat given.2]))) with
+    | [a, b] => pure (a, b)
+    | _ => throw "alt_given: 2 fields expected"
+  -- phase 4: ChunkTasks/ProcessTasks order; `chunk_of`[env id] = id of the Chunk pipe or -1, `max_tasks` = maxtasksperchunk
+  let chunkIds ← (← arr (fieldD req "chunk_of" (Json.arr #[]))).mapM int
+  let chunkOf : Nat → Option Nat := fun e => match chunkIds[e]? with | some i => (if i < 0 then none else some i.toNat) | none => none
+  let maxTasks ← nat (fieldD req "max_tasks" (ofNat 0))
+  let ordered (data : Option Bytes) : List (String × Json) :=
+    match data with
+    | none => []
+    | some f => match restore fl w.c (some f) with
+      | none => []
+      | some R =>
+        let tasks := makeTasks fl.finishedFix R.K w.triples
+        [("appended_ordered", ofList (idxOfRec tbl) (preamble fl w.ver w.exp R.K ++ (runOrder chunkOf maxTasks tasks).filterMap w.out))]
+  let mism (data : Option Bytes) : List (String × Json) :=
+    match data with
+    | none => []
+    | some f => match resumeChecked fl w shapeOf given (some f), resumeChecked fl w shapeOf altGiven (some f) with
+      | some (m, _), some (ma, oa) => [("mismatch", Json.bool m), ("mismatch_alt", Json.bool ma), ("alt_appended", ofNat oa.appended.length)]
+      | _, _ => []
   let name ← natList (fieldD req "name" (Json.arr #[]))
   -- entry point: the gzip test is the one extracted from the sink; when it disagrees with what the real sink wrote (reported
   -- by the harness as A:gz-decision-sink) the data is interpreted the way the real file is
@@ -118,10 +151,13 @@ def handle (req : Json) : Except String Json := do
         | _ => throw "gz cut: [j, torn] expected"
       else
         let data := (flatM ms).take (← nat c)
-        pure (outcomeJson tbl w L (textOf data) fl [("good", ofNat (memberScan scan data))])
+        let sizes := if data.length ≤ chunkCap then Coba.Generated.C02Scan.readSize :: extraSizes else []
+        pure (outcomeJson tbl w L (textOf data) fl ([("good", ofNat (memberScan scan data)),
+          ("good_chunked", ofList (fun c => Json.arr #[ofNat c, ofNat (chunkScan zs c data)]) sizes)] ++ mism (textOf data) ++ ordered (textOf data)))
     else
       let data := cut w L (← nat c)
-      pure (outcomeJson tbl w L (textOf data) fl [("n_complete", ofNat (nCompleteB w.c L data))]))
+      pure (outcomeJson tbl w L (textOf data) fl ([("n_complete", ofNat (nCompleteB w.c L data)),
+        ("from_file_cut", Json.bool (fromFile w.c isGz scan name data).isSome)] ++ mism (textOf data) ++ ordered (textOf data))))
   let wholeFile : Bytes := if gz && !ms.isEmpty then flatM ms else logFile w L
   let nodir := (runEntry fl w isGz scan ⟨name, false, none⟩).isNone
   let fromFileLog := fromFile w.c isGz scan name wholeFile
@@ -134,6 +170,9 @@ def handle (req : Json) : Except String Json := do
              ("gz_decision", Json.arr #[Json.bool (Coba.Generated.C02Gz.sinkPred.eval name), Json.bool (Coba.Generated.C02Gz.sourcePred.eval name), Json.bool (Coba.Generated.C02Gz.repairPred.eval name)]),
              ("gz_extracted", Json.bool Coba.Generated.C02Gz.extracted),
              ("log_len", ofNat (logFile w L).length),
+             ("given_shape", Json.arr #[ofNat given.1, ofNat given.2]),
+             ("read_size", ofNat Coba.Generated.C02Scan.readSize),
+             ("scan_extracted", Json.bool Coba.Generated.C02Scan.extracted),
              ("nodir_raises", Json.bool nodir),
              ("from_file", Json.str (match fromFileLog with | none => "raise" | some F => if F == L then "log" else "other")),
              ("cuts", Json.arr outs.toArray)])
